@@ -133,3 +133,9 @@ MUTANTS = [
 NEUTRALS = [
     M("flow guard with the context flag", _A, "if self.flow is not None:\n                    # Always store", "if self.flow is not None and not saved_flow:\n                    # Always store"),
 ]
+
+# functions the property is anchored in (auto-mutant sweep of the thorough tier)
+ANCHORS = [
+    'aspire.aspire:Aspire.sample_posterior',
+    'aspire.aspire:Aspire.fit',
+]
